@@ -214,6 +214,18 @@ def check(ck):
     ck.require(len(pops_ro) == 1 and all(before(pops_ro[0][0], p_) for p_ in puts) and bool(puts) and
                all(before(n, pops_ro[0][0]) for n in stores), "C18.3", "%s: merge -> protected-name filter -> emission" % q.fn(fe), "ordered",
                "the protected names are not removed after the merge and before the emission", q.loc(fe, fe.node))
+    # what is emitted is what was merged and filtered: the name written on the wire is the dictionary key itself (a name
+    # transformed at emission - stripped, re-cased - was not the one the protected-name filter and the User-Agent test saw)
+    for n in ge.live_nodes():
+        for c in node_calls(n):
+            if call_name(c) == "putheader" and c.args:
+                tn = prov.origin(ge, n, c.args[0])
+                plain = tn[0] == "unpack" and tn[2] == 0 and tn[1][0] == "elem" and tn[1][1][0] == "call" and tn[1][1][1][0] == "attr" and tn[1][1][1][2] == "items"
+                plain = plain or (tn[0] == "elem" and not prov.contains(tn, lambda x: x[0] == "call" and x[1][0] == "attr" and x[1][2] not in ("items", "keys")))
+                ck.require(plain, "C18.3", "%s: `%s` emits the merged key itself" % (q.fn(fe), dump(c)[:50]), "key of the merged dictionary, unchanged",
+                           "the header name put on the wire is %s, not the key that went through the merge and the protected-name filter: a "
+                           "pushed name that only becomes `content-type` / `content-length` / `user-agent` after that transformation is "
+                           "emitted as a second, overriding header" % prov.show(tn)[:70], q.loc(fe, n))
     rule_readonly_table(ck)
     ge = cfg_of(fe)
     rets = [n for n in ge.live_nodes() if n.kind == "return"]
@@ -271,6 +283,19 @@ def check(ck):
     ck.require(okk, "C18.5", "%s: removes the last pushed dictionary" % q.fn(fpop), "self.additional_headers.pop()",
                "pop_headers removes `%s`: it must remove the top of the stack, not the first dictionary equal to the argument (an inner block "
                "whose dictionary equals an outer one would remove the outer one)" % ([dump(c) for c in c2] or [dump(d_) for d_ in dels]), q.loc(fpop, fpop.node))
+    # every push stores and every pop removes: no path through either method skips the stack operation (a push that is
+    # "optimised away" and a pop that guesses which push it answers lose the pairing with the enclosing blocks)
+    for (fm, opname) in ((fpush, "append"), (fpop, "pop")):
+        gm = cfg_of(fm)
+        ops = set(n.id for n in gm.live_nodes() for c in node_calls(n) if isinstance(c.func, ast.Attribute) and c.func.attr == opname and
+                  dump(c.func.value) == "self.additional_headers")
+        ops |= set(n.id for n in gm.live_nodes() if n.kind == "stmt" and isinstance(n.ast, ast.Delete) and "self.additional_headers" in dump(n.ast))
+        skip = reachable_avoiding(gm, gm.entry.id, ops, lambda l: l != "exc")
+        ck.require(bool(ops) and gm.return_exit.id not in skip, "C18.5", "%s: every call performs the stack operation" % q.fn(fm),
+                   "no return before `self.additional_headers.%s(...)`" % opname,
+                   "%s can return without %s the stack (an early return on a special case): pushes and pops of nested blocks are no longer "
+                   "paired, and leaving an inner block can leave its headers in force" % (fm.name, "growing" if opname == "append" else "shrinking"),
+                   q.loc(fm, fm.node))
     finit = prog.func("jsonrpc", "ServerProxy.__init__")
     pc = [c for c in ast.walk(finit.node) if isinstance(c, ast.Call) and call_name(c) == "push_headers"]
     ck.require(len(pc) == 1 and dump(pc[0].args[0]) in ("headers or {}", "headers"), "C18.5", "%s: constructor headers pushed once" % q.fn(finit),
